@@ -25,6 +25,11 @@ static void vh_counting_free(void *p) { if (p) VH_FREES++; free(p); }
 #include "../../repo/src/ecmult_gen_compute_table_impl.h"
 #endif
 #include "vh_json.h"
+#include <signal.h>
+#include <unistd.h>
+/* per-record watchdog: a call that does not return (e.g. an unbounded retry loop) ends the process with a diagnostic
+ * instead of blocking the check; the engine reports the record that produced no output line */
+static void vh_watchdog(int sig) { static const char m[] = "vh: WATCHDOG: the current API call did not return within 120 s\n"; (void)sig; if (write(2, m, sizeof(m) - 1)) {} _exit(4); }
 
 static secp256k1_context *CTX;
 static long ICB = 0, ECB = 0;
@@ -196,6 +201,7 @@ int main(int argc, char **argv) {
     secp256k1_ecmult_gen_compute_table(&secp256k1_ecmult_gen_prec_table[0][0], &secp256k1_ge_const_g, COMB_BLOCKS, COMB_TEETH, COMB_SPACING);
     secp256k1_ecmult_compute_two_tables(secp256k1_pre_g, secp256k1_pre_g_128, WINDOW_G, &secp256k1_ge_const_g);
 #endif
+    signal(SIGALRM, vh_watchdog);
     CTX = secp256k1_context_create(SECP256K1_CONTEXT_NONE);
     secp256k1_context_set_illegal_callback(CTX, vh_illegal_cb, NULL);
     secp256k1_context_set_error_callback(CTX, vh_error_cb, NULL);
@@ -208,6 +214,7 @@ int main(int argc, char **argv) {
         if (!e || e->t != JV_STR) { fprintf(stderr, "vh: record without \"e\"\n"); return 3; }
         for (op = OPS; op->name; op++) if (jv_is(e, op->name)) break;
         if (!op->name) { fprintf(stderr, "vh: unknown op %.*s\n", (int)e->slen, e->s); return 3; }
+        alarm(120);
         out.len = 0; out.first = 1;
         jo_str(&out, "{\"e\":\""); jo_raw(&out, e->s, e->slen); jo_str(&out, "\",\"in\":");
         if (in) jo_raw(&out, in->src, in->srclen); else jo_str(&out, "{}");
@@ -218,6 +225,7 @@ int main(int argc, char **argv) {
         jo_str(&out, "}}\n");
         fwrite(out.b, 1, out.len, stdout);
         fflush(stdout);   /* a crash in the next call must not lose the lines already produced */
+        alarm(0);
     }
     fflush(stdout);
     /* release the harness' own memory so that LeakSanitizer (asan variant) reports only leaks of the library */
